@@ -248,7 +248,7 @@ def correspond(ctx):
     for i in range(ctx.n(80, 800)):
         nu, rl = gen_nu(rng), gen_rl(rng)
         f = gen_f(rng) if i % 4 else float(rng.uniform(0.05, 0.45))
-        if i % 40 == 7:
+        if i % 40 == 6:
             f = 0.0
         e0, eps, lab = gen_media(rng, kind=[0, 0, 2, 5, 4][int(rng.integers(0, 5))])
         tau = float([np.inf, 10 ** rng.uniform(-1, 3), rng.uniform(0.1, 0.3), 10 ** rng.uniform(-2.5, -1)][int(rng.integers(0, 4))])
@@ -500,7 +500,7 @@ def oracle(ctx, hints, effort):
             if key not in findings:
                 findings[key] = Finding(key, what, inp, obs, req)
 
-    n = 40 if effort == "routine" else 600
+    n = (300 if ctx.thorough else 40) if effort == "routine" else 600
     for i in range(n):
         nu, rl, f = gen_nu(rng), gen_rl(rng), gen_f(rng)
         if i % 4 == 0:
